@@ -455,10 +455,12 @@ pub fn check_c17(c: &Case, run: &Run, r: &mut Report) {
 
 fn sym_c13(i: usize, occ: usize) -> BOp {
     let ts = |y: usize| format!("{}-01-01T00:00:00+00:00", y);
+    // caller-supplied instants lie on BOTH sides of the (virtual) creation time and of creation + 1 h: a supplied value for
+    // one time claim must not move the default of another
     match i {
-        0 => BOp::Set(Claim::Exp(ts(2990 + occ))),
-        1 => BOp::Set(Claim::Nbf(ts(2001 + occ))),
-        2 => BOp::Set(Claim::Iat(ts(2010 + occ))),
+        0 => BOp::Set(Claim::Exp(ts(if occ % 3 == 1 { 1999 } else { 2990 + occ }))),
+        1 => BOp::Set(Claim::Nbf(ts(if occ % 3 == 0 { 9990 + occ % 10 } else { 2001 + occ }))),
+        2 => BOp::Set(Claim::Iat(ts(if occ % 3 == 1 { 9980 + occ % 10 } else { 2010 + occ }))),
         3 => BOp::Set(Claim::Iss(format!("issuer-{}", occ))),
         4 => BOp::Set(Claim::Custom("a".into(), json!({"n": occ, "s": "\u{e9}"}))),
         5 => BOp::Ack,
